@@ -38,6 +38,7 @@ package godi
 //@ field Descriptor.MultiReturnIndex immutable
 //@ field Descriptor.Constructor immutable
 //@ field Descriptor.ConstructorType immutable
+//@ field Descriptor.Dependencies immutable
 //
 // the disposed flags only ever move from 0 to 1
 //@ rely disposed_monotone_scope: forall r *scope :: old(r.disposed) != 0 ==> r.disposed != 0
@@ -620,3 +621,135 @@ package godi
 //@   requires target: c != nil
 //@   ensures[C20] same_call: result == nil && ncalls("Collection.RemoveKeyed") == 1 && callarg("Collection.RemoveKeyed", 0, 0) == c && callarg("Collection.RemoveKeyed", 0, 2) == key
 //@        && callarg("Collection.RemoveKeyed", 0, 1) == ext("(reflect.Type).Elem", "reflect.Type", ext("reflect.TypeOf", "reflect.Type", box(zero("*T"))))
+//
+// ---------------------------------------------------------------------------------------------
+// Lifetime validation (C07). r1/r2: the registry maps are keyed consistently with the descriptors they hold.
+//@ pred r1(c *collection) = forall tk TypeKey :: (tk in c.services) && c.services[tk] != nil ==> c.services[tk].Type == tk.Type && c.services[tk].Key == tk.Key
+//@ pred r2(c *collection) = forall gk GroupKey, i int :: (gk in c.groups) && 0 <= i && i < len(c.groups[gk]) && c.groups[gk][i] != nil ==> c.groups[gk][i].Group == gk.Group && c.groups[gk][i].Type == gk.Type && gk.Group != ""
+//@ pred longLived(d *Descriptor) = d != nil && d.Lifetime != Scoped
+//
+// noCaptivePlain / noCaptiveGroup: descriptor d declares no plain/keyed (resp. group) dependency whose registration is scoped
+//@ pred noCaptivePlain(c *collection, d *Descriptor) = forall i int :: 0 <= i && i < len(d.Dependencies) && d.Dependencies[i] != nil && d.Dependencies[i].Group == "" ==>
+//@        !((mk("TypeKey", d.Dependencies[i].Type, d.Dependencies[i].Key) in c.services)
+//@              && c.services[mk("TypeKey", d.Dependencies[i].Type, d.Dependencies[i].Key)] != nil
+//@              && c.services[mk("TypeKey", d.Dependencies[i].Type, d.Dependencies[i].Key)].Lifetime == Scoped)
+//@ pred noCaptiveGroup(c *collection, d *Descriptor) = forall i int, j int :: 0 <= i && i < len(d.Dependencies) && d.Dependencies[i] != nil && d.Dependencies[i].Group != ""
+//@        && 0 <= j && j < len(c.groups[mk("GroupKey", d.Dependencies[i].Type, d.Dependencies[i].Group)])
+//@        && c.groups[mk("GroupKey", d.Dependencies[i].Type, d.Dependencies[i].Group)][j] != nil ==>
+//@              c.groups[mk("GroupKey", d.Dependencies[i].Type, d.Dependencies[i].Group)][j].Lifetime != Scoped
+// checked(lt, d): every dependency of d that is found in the lifetime table is not scoped (what the code establishes)
+//@ pred checked(lt map[instanceKey]Lifetime, d *Descriptor) = forall i int :: 0 <= i && i < len(d.Dependencies) && d.Dependencies[i] != nil
+//@        && (mk("instanceKey", d.Dependencies[i].Type, d.Dependencies[i].Key, d.Dependencies[i].Group) in lt) ==>
+//@        lt[mk("instanceKey", d.Dependencies[i].Type, d.Dependencies[i].Key, d.Dependencies[i].Group)] != Scoped
+// tableOK(c, lt): the lifetime table holds the lifetime of every registered service under its identity
+//@ pred tableOK(c *collection, lt map[instanceKey]Lifetime) = forall tk TypeKey :: (tk in c.services) && c.services[tk] != nil ==>
+//@        (mk("instanceKey", tk.Type, c.services[tk].Key, "") in lt) && lt[mk("instanceKey", tk.Type, c.services[tk].Key, "")] == c.services[tk].Lifetime
+//
+//@ func collection.validateLifetimes
+//@   requires maps: regmaps(c) && r1(c) && r2(c)
+//@   safety[C15,C07]
+//@   ensures[C07] registry_unchanged: c.services == old(c.services) && c.groups == old(c.groups)
+//@   ensures[C07] accepted_means_no_captive_plain_dependency: result == nil ==> (forall tk TypeKey :: (tk in c.services) && longLived(c.services[tk]) ==> noCaptivePlain(c, c.services[tk]))
+//@        && (forall gk GroupKey, m int :: (gk in c.groups) && 0 <= m && m < len(c.groups[gk]) && longLived(c.groups[gk][m]) ==> noCaptivePlain(c, c.groups[gk][m]))
+//@   ensures[C07] accepted_means_no_captive_group_dependency: result == nil ==> (forall tk TypeKey :: (tk in c.services) && longLived(c.services[tk]) ==> noCaptiveGroup(c, c.services[tk]))
+//@        && (forall gk GroupKey, m int :: (gk in c.groups) && 0 <= m && m < len(c.groups[gk]) && longLived(c.groups[gk][m]) ==> noCaptiveGroup(c, c.groups[gk][m]))
+//@   ensures[C07,C15] rejection_is_a_lifetime_conflict: result != nil ==> typeis(result, "*LifetimeConflictError") && as(result, "*LifetimeConflictError") != nil
+//@        && as(result, "*LifetimeConflictError").DependencyLifetime == Scoped && as(result, "*LifetimeConflictError").ServiceLifetime != Scoped
+//@   loop 1
+//@     invariant table_so_far: lifetimes != nil && (forall tk TypeKey :: seen[tk] && (tk in c.services) && c.services[tk] != nil ==>
+//@        (mk("instanceKey", tk.Type, c.services[tk].Key, "") in lifetimes) && lifetimes[mk("instanceKey", tk.Type, c.services[tk].Key, "")] == c.services[tk].Lifetime)
+//@   loop 2
+//@     invariant table: lifetimes != nil && tableOK(c, lifetimes)
+//@   loop 3
+//@     invariant table: lifetimes != nil && tableOK(c, lifetimes) && (groupKey in c.groups) && descriptors == c.groups[groupKey]
+//@   loop 4
+//@     invariant deps_checked: forall i int :: 0 <= i && i < idx && descriptor.Dependencies[i] != nil
+//@        && (mk("instanceKey", descriptor.Dependencies[i].Type, descriptor.Dependencies[i].Key, descriptor.Dependencies[i].Group) in lifetimes) ==>
+//@        lifetimes[mk("instanceKey", descriptor.Dependencies[i].Type, descriptor.Dependencies[i].Key, descriptor.Dependencies[i].Group)] != Scoped
+//@   loop 5
+//@     invariant services_checked: forall tk TypeKey :: seen[tk] && (tk in c.services) && longLived(c.services[tk]) ==> checked(lifetimes, c.services[tk])
+//@   loop 6
+//@     invariant groups_checked: forall gk GroupKey, m int :: seen[gk] && (gk in c.groups) && 0 <= m && m < len(c.groups[gk]) && longLived(c.groups[gk][m]) ==> checked(lifetimes, c.groups[gk][m])
+//@   loop 7
+//@     invariant members_checked: forall m int :: 0 <= m && m < idx && longLived(descriptors[m]) ==> checked(lifetimes, descriptors[m])
+//@     invariant groups_checked: forall gk GroupKey, m int :: seen[gk] && (gk in c.groups) && 0 <= m && m < len(c.groups[gk]) && longLived(c.groups[gk][m]) ==> checked(lifetimes, c.groups[gk][m])
+//
+// ---------------------------------------------------------------------------------------------
+// Dynamic dispatch of the graph.Provider observers on a *Descriptor (Go interface-call semantics for the four one-line
+// methods below; each method body is itself checked against "result == field").
+//@ axiom dispatch_type: forall d *Descriptor :: {pure("graph.Provider.GetType", box(d))} d != nil ==> pure("graph.Provider.GetType", box(d)) == d.Type
+//@ axiom dispatch_key: forall d *Descriptor :: {pure("graph.Provider.GetKey", box(d))} d != nil ==> pure("graph.Provider.GetKey", box(d)) == d.Key
+//@ axiom dispatch_group: forall d *Descriptor :: {pure("graph.Provider.GetGroup", box(d))} d != nil ==> pure("graph.Provider.GetGroup", box(d)) == d.Group
+//@ axiom dispatch_deps: forall d *Descriptor :: {pure("graph.Provider.GetDependencies", box(d))} d != nil ==> pure("graph.Provider.GetDependencies", box(d)) == d.Dependencies
+//@ func Descriptor.GetType
+//@   requires recv: d != nil
+//@   ensures[C05,C04] is_field: result == d.Type
+//@ func Descriptor.GetKey
+//@   requires recv: d != nil
+//@   ensures[C05,C04] is_field: result == d.Key
+//@ func Descriptor.GetGroup
+//@   requires recv: d != nil
+//@   ensures[C05,C04] is_field: result == d.Group
+//@ func Descriptor.GetDependencies
+//@   requires recv: d != nil
+//@   ensures[C05,C04] is_field: result == d.Dependencies
+//
+//@ func formatType
+//@   pure
+//@   safety off
+//
+//@ func collection.doBuild
+//@   safety[C15,C08]
+//@   requires maps: regmaps(sc) && r1(sc) && r2(sc) && ctx != nil && sc.analyzer != nil
+//@   requires deps_nonnil: forall i int, j int :: 0 <= i && i < len(sc.allDescriptors) && sc.allDescriptors[i] != nil && 0 <= j && j < len(sc.allDescriptors[i].Dependencies) ==> sc.allDescriptors[i].Dependencies[j] != nil
+//@   ghost pos seq[int]
+//@   ghost built *provider
+//@   at before call g.AddProviderDeferred#1 : ghost pos[ncalls("graph.DependencyGraph.AddProviderDeferred")] := idx
+//@   at after assign p#1 : ghost built := p
+//@   at after assign p#1 : assert[C17] snapshot_of_registry: p.services != sc.services && p.groups != sc.groups
+//@        && (forall k TypeKey :: ((k in p.services) <==> (k in sc.services)) && p.services[k] == sc.services[k])
+//@        && (forall k GroupKey :: ((k in p.groups) <==> (k in sc.groups)) && len(p.groups[k]) == len(sc.groups[k]))
+//@   at after assign p#1 : assert[C04,C01] shares_analyzer_and_graph: p.analyzer == sc.analyzer && p.graph == g && fresh(p) && p.scopes != nil && len(p.scopes) == 0 && p.disposed == 0
+//@   ensures[C15] value_xor_error: (result1 == nil) <==> (result0 != nil)
+//@   ensures[C15] failure_is_build_error: result1 != nil ==> typeis(result1, "*BuildError") && as(result1, "*BuildError") != nil
+//@   ensures[C05,C06] graph_gets_every_registration_in_order: forall c int :: 0 <= c && c < ncalls("graph.DependencyGraph.AddProviderDeferred") ==>
+//@        0 <= pos[c] && pos[c] < len(old(sc.allDescriptors)) && old(sc.allDescriptors)[pos[c]] != nil && callarg("graph.DependencyGraph.AddProviderDeferred", c, 1) == box(old(sc.allDescriptors)[pos[c]])
+//@   ensures[C05,C06] graph_registrations_once_each: forall a int, b int :: 0 <= a && a < b && b < ncalls("graph.DependencyGraph.AddProviderDeferred") ==> pos[a] < pos[b]
+//@   ensures[C05] success_means_cycle_check_passed: result1 == nil ==> ncalls("graph.DependencyGraph.DetectCycles") == 1 && callret("graph.DependencyGraph.DetectCycles", 0, 0) == nil
+//@        && (forall i int :: 0 <= i && i < len(old(sc.allDescriptors)) && old(sc.allDescriptors)[i] != nil ==> (exists c int :: 0 <= c && c < ncalls("graph.DependencyGraph.AddProviderDeferred") && pos[c] == i))
+//@   ensures[C05,C15] cycle_is_reported_classifiably: ncalls("graph.DependencyGraph.DetectCycles") == 1 && callret("graph.DependencyGraph.DetectCycles", 0, 0) != nil ==>
+//@        result0 == nil && typeis(result1, "*BuildError") && as(result1, "*BuildError").Cause == callret("graph.DependencyGraph.DetectCycles", 0, 0) && ncalls("newScope") == 0
+//@   ensures[C07] success_means_lifetimes_validated: result1 == nil ==> ncalls("collection.validateLifetimes") == 1 && callarg("collection.validateLifetimes", 0, 0) == sc && callret("collection.validateLifetimes", 0, 0) == nil
+//@   ensures[C07,C15] lifetime_conflict_is_reported_classifiably: ncalls("collection.validateLifetimes") == 1 && callret("collection.validateLifetimes", 0, 0) != nil ==>
+//@        result0 == nil && typeis(result1, "*BuildError") && as(result1, "*BuildError").Cause == callret("collection.validateLifetimes", 0, 0) && ncalls("newScope") == 0
+//@   ensures[C18] root_scope_on_background_context: ncalls("newScope") <= 1 && (ncalls("newScope") == 1 ==> callarg("newScope", 0, 0) == built && callarg("newScope", 0, 1) == nil
+//@        && callarg("newScope", 0, 2) == ctxbackground() && callarg("newScope", 0, 3) == nil)
+//@   ensures[C01,C06] singletons_created_after_validation: result1 == nil ==> ncalls("provider.createAllSingletonsWithContext") == 1 && callarg("provider.createAllSingletonsWithContext", 0, 0) == built
+//@        && callret("provider.createAllSingletonsWithContext", 0, 0) == nil && result0 == box(built)
+//@        && calltime("graph.DependencyGraph.DetectCycles", 0) < calltime("collection.validateLifetimes", 0) && calltime("collection.validateLifetimes", 0) < calltime("newScope", 0)
+//@        && calltime("newScope", 0) < calltime("provider.createAllSingletonsWithContext", 0)
+//@   ensures[C10,C15] failed_singleton_phase_cleans_up: ncalls("provider.createAllSingletonsWithContext") == 1 && callret("provider.createAllSingletonsWithContext", 0, 0) != nil ==>
+//@        result0 == nil && ncalls("provider.Close") == 1 && callarg("provider.Close", 0, 0) == built
+//@   ensures[C15] failed_singleton_phase_is_classifiable: ncalls("provider.createAllSingletonsWithContext") == 1 && callret("provider.createAllSingletonsWithContext", 0, 0) != nil && callret("provider.Close", 0, 0) == nil ==>
+//@        as(result1, "*BuildError").Cause == callret("provider.createAllSingletonsWithContext", 0, 0)
+//@   loop 1
+//@     invariant frame: allDescriptors == old(sc.allDescriptors) && g != nil && wf(g)
+//@     invariant calls_ok: forall c int :: 0 <= c && c < ncalls("graph.DependencyGraph.AddProviderDeferred") ==>
+//@        0 <= pos[c] && pos[c] < idx && allDescriptors[pos[c]] != nil && callarg("graph.DependencyGraph.AddProviderDeferred", c, 1) == box(allDescriptors[pos[c]])
+//@     invariant monotone: forall a int, b int :: 0 <= a && a < b && b < ncalls("graph.DependencyGraph.AddProviderDeferred") ==> pos[a] < pos[b]
+//@     invariant all_added: forall i int :: 0 <= i && i < idx && allDescriptors[i] != nil ==> (exists c int :: 0 <= c && c < ncalls("graph.DependencyGraph.AddProviderDeferred") && pos[c] == i)
+//
+// ---------------------------------------------------------------------------------------------
+// Glue between what the graph checks and what resolution follows (C05, C06): the dependency relation of resolution
+// (scope.resolve / GetGroup look services up by type+key, groups by type+group) must be contained in the graph's edges
+// (AddProviderDeferred: edge key(d) -> depKey(dep), node key(d') = {d'.Type, d'.Key, d'.Group}).
+//@ lemma glue_plain_dependency_is_an_edge
+//@   vars dep *reflection.Dependency, target *Descriptor
+//@   requires plain: dep != nil && target != nil && dep.Group == ""
+//@   requires registered_under: target.Type == dep.Type && target.Key == dep.Key && target.Group == ""
+//@   ensures[C05,C06] edge_reaches_registration: mk("graph.NodeKey", dep.Type, dep.Key, dep.Group) == mk("graph.NodeKey", pure("graph.Provider.GetType", box(target)), pure("graph.Provider.GetKey", box(target)), pure("graph.Provider.GetGroup", box(target)))
+//@ lemma glue_group_dependency_is_an_edge
+//@   vars dep *reflection.Dependency, member *Descriptor, i int
+//@   requires group: dep != nil && member != nil && dep.Group != "" && dep.Key == nil && i >= 0
+//@   requires member_of: member.Type == dep.Type && member.Group == dep.Group && member.Key == box(i + 1, "int")
+//@   ensures[C05,C06] edge_reaches_member: mk("graph.NodeKey", dep.Type, dep.Key, dep.Group) == mk("graph.NodeKey", pure("graph.Provider.GetType", box(member)), pure("graph.Provider.GetKey", box(member)), pure("graph.Provider.GetGroup", box(member)))
